@@ -293,6 +293,7 @@ func c03R6(r *Report) {
 		// operation (net.OpError.Addr, Request.TLS, URL.User ...) dereferenced untested;
 		// the pinned tree has no such dereference, the self-test keeps a positive example
 		nilableFieldRule(r, "", "mitm", "proxyutil", "header", "httpspec", "har", "martianlog", "marbl")
+		funcFieldCallsRule(r, "", "mitm", "proxyutil", "header", "httpspec", "har", "martianlog", "marbl")
 		// no recover exists, which is why the rule matters; note if one appears
 		for _, f := range fs {
 			for _, c := range calls(f, "builtin.recover") {
